@@ -2,18 +2,27 @@
 
 Oracle (implementation level, independent of the model): 8 values of PYTHONHASHSEED x 6
 configurations (statement containers as list / frozenset / tuple; statements, dependency sets and
-the phase dict built in permuted order; another rotation of the program list) = 48 "lanes", each a
+the phase dict built in permuted order; another rotation of the program list; every program
+generated twice in a row by separate generator objects) = 48 "lanes", each a
 fresh interpreter process that generates ALL programs one after the other with new generator
-objects -- so every program is also produced after different predecessors in the same process.
+objects -- so every program is also produced after different predecessors in the same process,
+and in one configuration directly after a generator that produced the very same method.
 Observed per program: sha256 of the Python text, of the Fortran text and of the real
 interpreter's event list.  All lanes must agree byte for byte; a difference is classified (hash
 seed / container order / history), shrunk, and reported with the two configurations and a unified
-diff excerpt.
+diff excerpt.  The programs exercise: user right-hand sides and a two-result user function, a user
+function whose template declares temporaries, keyword-argument calls, the built-ins with Fortran
+templates of their own (array, matmul, transpose, linear_solve, svd, print) and the computed ones
+(norm_2, len, isnan, elementwise_abs), looping assignments with several distinct counters,
+if/else, switch/restart/fail/raise, several phases/components/time ids, and the generator's options
+(instrumentation on/off, trace, state update hooks, extra arguments, preambles, flat and nested
+user types with a structure and a pointer member).
 
 Tie to the model (coq/model/Determ.v): the real code of the modelled iteration sites
 (SelfDependencyEliminator.map_statement, var_to_last_dependent_statement_mapping,
 emit_deinit_for_last_usage_of_vars, the end-of-function deinit loop, the Python generator's
-iteration over dag.phases, ArrayType's default index variables) is run with set-like objects whose
+iteration over dag.phases, ArrayType's default index variables, the sorted declaration /
+initialisation loops of emit_def_begin) is run with set-like objects whose
 iteration order is dictated by the harness and compared with the model evaluated by vm_compute on
 the same explicit order lists.  harness/tr/c15.py additionally enumerates every for/comprehension
 of dagrt/codegen/*.py whose iterable is not syntactically ordered and requires the list to equal
@@ -43,7 +52,14 @@ SEEDS = [0, 1, 2, 3, 4, 5, 6, 7]
 #    | ["loop", lhs, rhs, [[i, lo, hi]...]]    cb(lhs, rhs, loops=...)
 #    | ["if", cond, [op...], [op...]]          with cb.if_(cond): ... / with cb.else_(): ...
 #    | ["yield", expr, comp, time, time_id] | ["switch", phase] | ["fail"] | ["restart"]
+#    | ["raise", message]                      cb.raise_(MethodError, message)
+# lhs [] is the empty assignee tuple (cb((), "`<builtin>print`(x)")).
+# Optional program key "fopts": options of the Fortran generator (see fortran_text).
 # The canonical description is what the real CodeBuilder makes of the ops (ids, dependencies).
+
+
+class MethodError:
+    """error condition of the ["raise", ...] op (only its __name__ reaches the generated text)"""
 
 
 def _apply_ops(cb, ops):
@@ -69,6 +85,8 @@ def _apply_ops(cb, ops):
             cb.fail_step()
         elif k == "restart":
             cb.restart_step()
+        elif k == "raise":
+            cb.raise_(MethodError, op[1])
         else:
             raise ValueError(op)
 
@@ -121,7 +139,30 @@ F_CODE = "\n    ${result} = ${y} + 1\n    "
 H_CODE = "\n    ${result} = ${z} + 2\n    "
 
 
+# a user function whose Fortran template declares temporaries of its own, in the three ways a
+# template can (declare_new, get_new_identifier + add_declaration), like the built-in linear
+# algebra templates do
+S_CODE = """
+    <%
+    tmp = declare_new("real (kind=%s)" % real_scalar_kind, "stmp")
+    cnt = get_new_identifier("scnt")
+    add_declaration("integer :: " + cnt)
+    %>
+    ${tmp} = 2
+    ${cnt} = 1
+    ${result} = ${tmp}*${a} + ${cnt}
+    """
+NOTE_CODE = "\n    write(*,*) 'state update ${tag}'\n    "
+
+_REGISTRY = []
+
+
 def registry():
+    """One registry per process, shared by all generator objects of a lane (the way a user builds
+    it once and generates several methods): whatever a CallCode object or a Function keeps from one
+    generation is then seen by the next."""
+    if _REGISTRY:
+        return _REGISTRY[0]
     import dagrt.codegen.fortran as f
     from dagrt.data import UserType
     from dagrt.function_registry import base_function_registry, register_function, register_ode_rhs
@@ -132,21 +173,54 @@ def registry():
     freg = register_function(freg, "<func>g", ("a", "b"), result_names=("r1", "r2"),
                              result_kinds=(UserType("y"), UserType("y")))
     freg = freg.register_codegen("<func>g", "fortran", f.CallCode(G_CODE))
+    freg = register_function(freg, "<func>s", ("a",), result_names=("result",), result_kinds=(UserType("y"),))
+    freg = freg.register_codegen("<func>s", "fortran", f.CallCode(S_CODE))
+    for tag in ("before", "after"):
+        freg = register_function(freg, "notify_" + tag, ("arg",))
+        freg = freg.register_codegen("notify_" + tag, "fortran", f.CallCode(NOTE_CODE, extra_args={"tag": tag}))
+    _REGISTRY.append(freg)
     return freg
 
 
-def user_types():
-    """Built anew for every generator (ArrayType's default index variables come from a counter)."""
+def user_types(kind="flat"):
+    """Built anew for every generator (ArrayType's default index variables came from a counter).
+    "nested": arrays of arrays and a structure with an array and a pointer member."""
     import dagrt.codegen.fortran as f
+    if kind == "nested":
+        return {"y": f.ArrayType((5,), f.ArrayType((2, 2), f.BuiltinType("real*8"))),
+                "z": f.StructureType("zrec", (
+                    ("coeffs", f.ArrayType((3,), f.BuiltinType("real*8"))),
+                    ("scale", f.BuiltinType("real*8")),
+                    ("grid", f.PointerType(f.ArrayType((2,), f.ArrayType((2,), f.BuiltinType("real*8"))))),))}
     return {"y": f.ArrayType((5,), f.BuiltinType("real*8")),
             "z": f.ArrayType((3,), f.BuiltinType("real*8"))}
 
 
-def fortran_text(code, name="m"):
+FOPTS_DEFAULT = {"instr": True, "trace": False, "types": "flat", "hooks": False, "extra": False}
+
+
+def fortran_generator(fopts=None, name="m"):
+    """fopts (program key "fopts"): instr = emit_instrumentation, trace, types = user_types kind,
+    hooks = call_before/after_state_update, extra = extra_arguments + their declarations, a
+    module preamble and a parallel-do preamble."""
     import dagrt.codegen.fortran as f
-    cg = f.CodeGenerator(name, function_registry=registry(), user_type_map=user_types(),
-                         timing_function="second", emit_instrumentation=True)
-    return cg(code)
+    o = dict(FOPTS_DEFAULT, **(fopts or {}))
+    kw = {}
+    if o["instr"]:
+        kw.update(timing_function="second", emit_instrumentation=True)
+    if o["trace"]:
+        kw.update(trace=True)
+    if o["hooks"]:
+        kw.update(call_before_state_update="notify_before", call_after_state_update="notify_after")
+    if o["extra"]:
+        kw.update(extra_arguments=("rhs_ctx", "rhs_n"),
+                  extra_argument_decl="\n    integer rhs_n\n    real*8 rhs_ctx(rhs_n)\n    ",
+                  module_preamble="\n    use iso_c_binding\n    ", parallel_do_preamble="!dir$ simd")
+    return f.CodeGenerator(name, function_registry=registry(), user_type_map=user_types(o["types"]), **kw)
+
+
+def fortran_text(code, fopts=None, name="m"):
+    return fortran_generator(fopts, name)(code)
 
 
 def python_text(code, name="Method"):
@@ -174,7 +248,7 @@ def interpreter_events(code, steps):
     import numpy as np
     from dagrt.exec_numpy import NumpyInterpreter
     fmap = {"<func>f": lambda t, y: y + 1, "<func>g": lambda a, b: (a + b, a - b),
-            "<func>h": lambda t, z: z + 2}
+            "<func>h": lambda t, z: z + 2, "<func>s": lambda a: 2 * a + 1}
     interp = NumpyInterpreter(code, function_map=fmap)
     interp.set_up(t_start=0, dt_start=1, context={"y": np.array([1, 2, 3, 4, 5], dtype=np.int64),
                                                      "z": np.array([7, 8, 9], dtype=np.int64)})
@@ -195,17 +269,22 @@ PRE_PROGRAM = {"name": "pre", "initial": "q", "steps": 1, "phases": [
 
 
 def observe(prog, cfg):
-    """All three observables of one configuration (texts, or the exception class)."""
+    """All three observables of one configuration (texts, or the exception class).
+    cfg["repeat"] = r: both texts are produced r + 1 times, each time by a brand-new generator
+    object, and the LAST text is the observable -- the smallest form of "what a previous, separate
+    generator produced in the same process": the same method, generated again."""
     out = {}
     try:
         code = make_code(prog, cfg)
     except Exception as ex:  # noqa: BLE001
         return {"py": "EXC-build " + type(ex).__name__, "f": "EXC-build " + type(ex).__name__, "ev": []}
-    for key, fn in (("py", python_text), ("f", fortran_text)):
-        try:
-            out[key] = fn(code)
-        except Exception as ex:  # noqa: BLE001
-            out[key] = "EXC " + type(ex).__name__
+    fopts = prog.get("fopts")
+    for key, fn in (("py", python_text), ("f", lambda c: fortran_text(c, fopts))):
+        for _ in range(1 + int(cfg.get("repeat", 0))):
+            try:
+                out[key] = fn(code)
+            except Exception as ex:  # noqa: BLE001
+                out[key] = "EXC " + type(ex).__name__
     out["ev"] = interpreter_events(code, prog.get("steps", 2))
     return out
 
@@ -380,10 +459,142 @@ HAND_PROGRAMS = [
             ["if", "nrm > 100", [["fail"]]],
             ["asg", "<state>y", "a + b"],
             ["yield", "<state>y", "y", "<t>", "final"]]}]},
+    # the built-ins whose Fortran templates are module-level CallCode objects shared by every
+    # generator of a process and declare temporaries of their own (matmul, transpose,
+    # linear_solve, svd), print with no assignee, len, a Raise (test_arrays_and_linalg of /repo)
+    {"name": "linalg", "initial": "main", "steps": 1, "phases": [
+        {"name": "main", "next": "main", "ops": [
+            ["asg", "n", "2"],
+            ["asg", "nodes", "`<builtin>array`(n)"],
+            ["asg", "vdm", "`<builtin>array`(n*n)"],
+            ["asg", "ident", "`<builtin>array`(n*n)"],
+            ["loop", "nodes[i]", "i + 1", [["i", "0", "n"]]],
+            ["loop", "ident[i]", "0", [["i", "0", "n*n"]]],
+            ["loop", "ident[i*n + i]", "1", [["i", "0", "n"]]],
+            ["loop", "vdm[j*n + i]", "nodes[i]**j", [["i", "0", "n"], ["j", "0", "n"]]],
+            ["asg", "vinv", "`<builtin>linear_solve`(vdm, ident, n, n)"],
+            ["asg", "prod", "`<builtin>matmul`(vdm, vinv, n, n)"],
+            ["asg", "prodt", "`<builtin>transpose`(prod, n)"],
+            ["asg", ["su", "ssig", "svt"], "`<builtin>svd`(vdm, n)"],
+            ["asg", "zero", "prod - ident"],
+            ["asg", [], "`<builtin>print`(zero)"],
+            ["asg", "<p>res", "`<builtin>norm_2`(zero) + `<builtin>norm_2`(prodt) + `<builtin>len`(ssig)"],
+            ["if", "<p>res > 100", [["raise", "matrix inversion failed"]]]]}]},
+    # the same built-ins once more, in another method (another result name, two phases, two
+    # calls of one template in one phase): whichever of the two is generated first in a lane
+    # is the "previous generator" of the other
+    {"name": "linalg_again", "initial": "setup", "steps": 2, "phases": [
+        {"name": "setup", "next": "work", "ops": [
+            ["asg", "<p>m", "2"],
+            ["asg", "<p>mat", "`<builtin>array`(<p>m*<p>m)"],
+            ["loop", "<p>mat[r*<p>m + c]", "1 + r + 2*c*c", [["r", "0", "<p>m"], ["c", "0", "<p>m"]]]]},
+        {"name": "work", "next": "work", "ops": [
+            ["asg", "sq", "`<builtin>matmul`(<p>mat, <p>mat, <p>m, <p>m)"],
+            ["asg", "cube", "`<builtin>matmul`(sq, <p>mat, <p>m, <p>m)"],
+            ["asg", "tr", "`<builtin>transpose`(cube, <p>m)"],
+            ["asg", "sol", "`<builtin>linear_solve`(<p>mat, tr, <p>m, <p>m)"],
+            ["asg", ["uu", "sg", "vv"], "`<builtin>svd`(sol, <p>m)"],
+            ["asg", [], "`<builtin>print`(sg)"],
+            ["asg", "<p>mat", "sol"]]}]},
+    # several distinct loop counters in one phase: one assignment looping over two of them,
+    # further looping assignments with counters of their own, one of them conditional
+    {"name": "loop_counters", "initial": "main", "steps": 2, "phases": [
+        {"name": "main", "next": "main", "ops": [
+            ["asg", "n", "3"],
+            ["asg", "mat", "`<builtin>array`(n*n)"],
+            ["loop", "mat[row*n + col]", "row + 10*col", [["row", "0", "n"], ["col", "0", "n"]]],
+            ["asg", "diag", "`<builtin>array`(n)"],
+            ["loop", "diag[k]", "mat[k*n + k]", [["k", "0", "n"]]],
+            ["asg", "acc", "`<builtin>array`(n)"],
+            ["if", "diag[1] > 5", [["loop", "acc[idx]", "diag[idx] + mat[idx]", [["idx", "0", "n"]]]],
+             [["loop", "acc[jj]", "0", [["jj", "0", "n"]]]]],
+            ["asg", "<p>corner", "mat[n*n - 1] + acc[0]"]]}]},
+    # a user function whose template declares temporaries (declare_new, get_new_identifier,
+    # add_declaration), called several times and in two phases; calls with keyword arguments;
+    # len / isnan / elementwise_abs / norm_2 on a user type; restart_step
+    {"name": "user_templates", "initial": "first", "steps": 3, "phases": [
+        {"name": "first", "next": "second", "ops": [
+            ["asg", "a", "<func>s(<state>y)"],
+            ["asg", "b", "<func>s(a=a)"],
+            ["asg", "c", "<func>f(y=b, t=<t>)"],
+            ["asg", "size", "`<builtin>len`(c)"],
+            ["asg", "bad", "`<builtin>isnan`(c)"],
+            ["asg", "<p>mag", "`<builtin>norm_2`(`<builtin>elementwise_abs`(c))"],
+            ["if", "bad", [["restart"]]],
+            ["asg", "<state>y", "a + b + size*c"]]},
+        {"name": "second", "next": "first", "ops": [
+            ["asg", "d", "<func>s(<state>y)"],
+            ["asg", ["d", "e"], "<func>g(a=d, b=<state>y)"],
+            ["asg", "<state>y", "d + e"],
+            ["asg", [], "`<builtin>print`(<p>mag)"],
+            ["yield", "<state>y", "y", "<t>", "second"]]}]},
+    # the other settings of the Fortran generator: no instrumentation, trace output, state update
+    # hooks, extra arguments with declarations, module preamble, parallel-do preamble; user types
+    # that are arrays of arrays and a structure with array and pointer members
+    {"name": "generator_options", "initial": "main", "steps": 2,
+     "fopts": {"instr": False, "trace": True, "hooks": True, "extra": True},
+     "phases": [
+        {"name": "main", "next": "main", "ops": [
+            ["asg", "p", "<func>f(<t>, <state>y)"],
+            ["asg", "q", "<func>h(<t>, <state>z)"],
+            ["asg", "n", "2"],
+            ["asg", "w", "`<builtin>array`(n)"],
+            ["loop", "w[i]", "i + `<builtin>norm_2`(p)", [["i", "0", "n"]]],
+            ["asg", "<state>z", "q + w[1]*<state>z"],
+            ["asg", "<state>y", "p + <state>y"],
+            ["yield", "<state>z", "z", "<t>", "tz"],
+            ["yield", "<state>y", "y", "<t> + <dt>", "ty"]]}]},
+    {"name": "nested_user_types", "initial": "main", "steps": 2, "fopts": {"types": "nested", "trace": True},
+     "phases": [
+        {"name": "main", "next": "fin", "ops": [
+            ["asg", "p", "<func>f(<t>, <state>y)"],
+            ["asg", "q", "<func>h(<t>, <state>z)"],
+            ["asg", "r", "2*q + <state>z"],
+            ["asg", "s", "`<builtin>norm_2`(p) + `<builtin>norm_2`(r) + `<builtin>len`(p)"],
+            ["asg", "<state>z", "s*r"],
+            ["asg", "<state>y", "`<builtin>elementwise_abs`(p) + <state>y"]]},
+        {"name": "fin", "next": "main", "ops": [
+            ["asg", ["u", "v"], "<func>g(<state>y, <func>s(<state>y))"],
+            ["asg", "<state>y", "u if `<builtin>isnan`(v) else v"],
+            ["yield", "<state>y", "y", "<t>", "ty"],
+            ["yield", "<state>z", "z", "<t>", "tz"]]}]},
 ]
 
 UVARS = ["ua", "ub", "uc", "ud"]
 SVARS = ["sa", "sb", "sc"]
+
+
+LNAMES = ["i", "j", "k", "row", "col", "ii", "m1"]
+
+
+def array_section(arng, defined_s):
+    """arrays filled by looping assignments with two or three distinct counters, then one of the
+    built-ins with a template of their own; returns (ops, name of the scalar it computes)"""
+    l1, l2, l3 = arng.sample(LNAMES, 3)
+    sc = arng.choice(defined_s) if defined_s and arng.random() < 0.5 else "1"
+    ops = [["asg", "an", arng.choice(["2", "3"])],
+           ["asg", "am", "`<builtin>array`(an*an)"],
+           ["loop", "am[%s*an + %s]" % (l1, l2), "%s + 2*%s + %s" % (l1, l2, sc),
+            [[l1, "0", "an"], [l2, "0", "an"]]]]
+    if arng.random() < 0.6:
+        ops += [["asg", "av", "`<builtin>array`(an)"],
+                ["loop", "av[%s]" % l3, "am[%s] + %s" % (l3, l3), [[l3, "0", "an"]]],
+                ["asg", "am[0]", "av[1]"]]
+    c = arng.random()
+    res = "am"
+    if c < 0.35:
+        ops.append(["asg", "ar", "`<builtin>matmul`(am, am, an, an)"])
+        res = "ar"
+    elif c < 0.55:
+        ops.append(["asg", "ar", "`<builtin>transpose`(am, an)"])
+        res = "ar"
+    elif c < 0.7:
+        ops.append(["asg", ["au", "asig", "avt"], "`<builtin>svd`(am, an)"])
+        res = "asig"
+    elif c < 0.8:
+        ops.append(["asg", [], "`<builtin>print`(am)"])
+    ops.append(["asg", "asn", "`<builtin>norm_2`(%s)" % res])
+    return ops, "asn"
 
 
 def random_program(rng, idx):
@@ -445,13 +656,35 @@ def random_program(rng, idx):
         defined_u.append("ua")
         ops = [["asg", "ua", "<func>f(<t>, <state>y)"]] + block(0, rng.randint(3, 9))
         have = defined_u + ["<state>y"]
+        # a generator of its own, so that the programs above stay what they were before the
+        # array section existed
+        arng = random.Random("arrays/%d/%d/%s" % (idx, pi, ",".join(names)))
+        scale = None
+        if arng.random() < 0.55:
+            aops, scale = array_section(arng, defined_s)
+            ops += aops
         ops.append(["asg", "<state>y", " + ".join(dict.fromkeys(have))])
+        if scale:
+            ops.append(["asg", "<state>y", "%s*<state>y" % scale])
         if rng.random() < 0.7:
             ops.append(["yield", "<state>y", "y", "<t>", "t%d" % pi])
         if nph > 1 and rng.random() < 0.3 and defined_s:
             ops.append(["if", "%s > 2" % rng.choice(defined_s), [["switch", names[(pi + 2) % nph]]]])
         phases.append({"name": pname, "next": names[(pi + 1) % nph], "ops": ops})
     return {"name": "rand%d" % idx, "initial": names[0], "steps": 3, "phases": phases}
+
+
+DECLARING_TEMPLATES = ("<builtin>matmul", "<builtin>transpose", "<builtin>linear_solve", "<builtin>svd", "<func>s")
+
+
+def _loop_counters(ops):
+    out = set()
+    for op in ops:
+        if op[0] == "loop":
+            out |= {l[0] for l in op[3]}
+        elif op[0] == "if":
+            out |= _loop_counters(op[2]) | _loop_counters(op[3] if len(op) > 3 else [])
+    return out
 
 
 def prog_size(prog):
@@ -479,9 +712,14 @@ CONFIGS = [
     {"container": "frozenset"},
     {"container": "frozenset", "perm": 1, "dep_perm": 1},
     {"container": "tuple", "perm": 2, "dep_perm": 2, "phase_perm": 1},
-    {"container": "list", "offset": 1},                      # differs from CONFIGS[0] in history only
+    # differs from CONFIGS[0] in history only: other predecessors, and every program is generated
+    # twice in a row by separate generator objects (the second text is the observable)
+    {"container": "list", "offset": 1, "repeat": 1},
     {"container": "frozenset", "perm": 3, "dep_perm": 3, "phase_perm": 2, "offset": 2},
 ]
+
+
+HISTORY_KEYS = ("offset", "repeat")      # what of a configuration is process history, not storage
 
 
 def lane_jobs(programs, cfg):
@@ -512,6 +750,10 @@ def signature(diff):
         return "release_calls_reordered"
     if all("drtf_i" in l for l in ch):
         return "index_variable_names"
+    if _only_reordered(diff, _is_declaration):
+        return "declarations_reordered"
+    if all(_is_declaration(l) for l in ch):
+        return "declarations_differ"
     if any("def phase_" in l or "phase_transition_table" in l for l in ch):
         return "phase_order"
     if any("temp" in l for l in ch):
@@ -520,13 +762,15 @@ def signature(diff):
 
 
 def classify(cfg_a, seed_a, cfg_b, seed_b):
-    ca = {k: v for k, v in cfg_a.items() if k != "offset"}
-    cb = {k: v for k, v in cfg_b.items() if k != "offset"}
-    if ca == cb and cfg_a.get("offset", 0) == cfg_b.get("offset", 0):
+    ca = {k: v for k, v in cfg_a.items() if k not in HISTORY_KEYS}
+    cb = {k: v for k, v in cfg_b.items() if k not in HISTORY_KEYS}
+    ha = [cfg_a.get(k, 0) for k in HISTORY_KEYS]
+    hb = [cfg_b.get(k, 0) for k in HISTORY_KEYS]
+    if ca == cb and ha == hb:
         return "hash_seed"
     if ca == cb:
         return "history"
-    if cfg_a.get("offset", 0) == cfg_b.get("offset", 0):
+    if ha == hb:
         return "container_order"
     return "container_order_or_history"
 
@@ -707,13 +951,43 @@ def observe_sites(prog, rev, k, cfg=None):
             s1.append({"phase": name, "before": before, "after": after})
         obs["s1"] = s1
         # ---- the whole Fortran generator, with the calls of interest recorded
-        cg = f.CodeGenerator("m", function_registry=registry(), user_type_map=user_types(),
-                             timing_function="second", emit_instrumentation=True)
-        rec = {"ctx": None, "calls": [], "order": [], "leaves": {}, "kinds": None}
+        cg = fortran_generator(prog.get("fopts"))
+        rec = {"ctx": None, "calls": [], "order": [], "leaves": {}, "kinds": None, "decls": {}, "in_begin": None}
         o_for, o_var, o_lf, o_la, o_end = (cg.emit_deinit_for_last_usage_of_vars, cg.emit_variable_deinit,
                                            cg.lower_function, cg.lower_ast, cg.emit_def_end)
+        o_begin, o_decl, o_init = cg.emit_def_begin, cg.emit_variable_decl, cg.emit_variable_init
+
+        def w_begin(function_name, argument_names, phase_id=None, **kw):
+            # the declarations and initialisations of the locals of a phase function
+            if phase_id is None:
+                return o_begin(function_name, argument_names, phase_id=phase_id, **kw)
+            d = rec["decls"][phase_id] = {"keys": list(cg.sym_kind_table.per_phase_table.get(phase_id, {})),
+                                          "decl": [], "init": []}
+            rec["in_begin"] = d
+            try:
+                return o_begin(function_name, argument_names, phase_id=phase_id, **kw)
+            finally:
+                rec["in_begin"] = None
+                back = {}
+                for ident in d["keys"]:
+                    back.setdefault(cg.name_manager[ident], ident)
+                d["decl"] = [back.get(n, "?" + n) for n in d["decl"]]
+
+        def w_decl(fortran_name, sym_kind, *a, **kw):
+            if rec["in_begin"] is not None:
+                rec["in_begin"]["decl"].append(fortran_name)
+            return o_decl(fortran_name, sym_kind, *a, **kw)
+
+        def w_init(name, sym_kind, *a, **kw):
+            if rec["in_begin"] is not None:
+                rec["in_begin"]["init"].append(name)
+            return o_init(name, sym_kind, *a, **kw)
 
         def w_for(inst):
+            if getattr(inst, "id", None) is None:
+                # the call of a state update hook, made up by emit_inst_YieldState: not a statement
+                # of the description (its argument has no kind, so nothing is released)
+                return o_for(inst)
             if getattr(cg, "for_loop_depth", 0):
                 # since the repair of C12 (176abb3) the site returns at once inside a loop body:
                 # nothing is iterated or emitted there
@@ -747,6 +1021,7 @@ def observe_sites(prog, rev, k, cfg=None):
 
         cg.emit_deinit_for_last_usage_of_vars, cg.emit_variable_deinit = w_for, w_var
         cg.lower_function, cg.lower_ast, cg.emit_def_end = w_lf, w_la, w_end
+        cg.emit_def_begin, cg.emit_variable_decl, cg.emit_variable_init = w_begin, w_decl, w_init
         try:
             cg(code)
         except Exception as ex:  # noqa: BLE001
@@ -768,6 +1043,8 @@ def observe_sites(prog, rev, k, cfg=None):
                 final.setdefault(ctx[1], []).append([name, kd])
         obs["deinit"] = [[p, [[sid, calls] for sid, calls in per_stmt.get(p, {}).items()]] for p in rec["order"]]
         obs["final"] = [[p, final.get(p, [])] for p in rec["order"]]
+        obs["decls"] = [[p, rec["decls"][p]["keys"], rec["decls"][p]["decl"], rec["decls"][p]["init"]]
+                        for p in rec["order"] if p in rec["decls"]]
     return obs
 
 
@@ -886,6 +1163,8 @@ def site_cases(obs):
     fin = clist("(%s, %s)" % (cs(p), clist("(%s, %s)" % (cs(v), okind_coq(kd)) for v, kd in calls))
                 for p, calls in obs["final"])
     out.append(("deinit", "(CDeinit %s %d %s %s %s %s)" % (rev, k, T, fs, exp, fin)))
+    for p, keys, decl, init in obs.get("decls", []):
+        out.append(("decls", "(CDecls %s %s %s)" % (clist(map(cs, keys)), clist(map(cs, decl)), clist(map(cs, init)))))
     return out
 
 
@@ -907,7 +1186,8 @@ Inductive ccase :=
           (expect : list (string * list (string * dres)))
           (final : list (string * list (string * okind)))
 | CPhases (D : list (string * string)) (f_order py_order : list string) (py_table : list (string * string))
-| CIndex (h n : nat) (e : ftype) (names : list string) (h' : nat).
+| CIndex (h n : nat) (e : ftype) (names : list string) (h' : nat)
+| CDecls (keys decl init : list string).
 Definition is_state := c_is_state gen_cfg.
 Definition entry_eqb (a b : lkey * string) : bool := lkey_eqb (fst a) (fst b) && String.eqb (snd a) (snd b).
 Definition pair_eqb (a b : string * string) : bool := String.eqb (fst a) (fst b) && String.eqb (snd a) (snd b).
@@ -945,6 +1225,10 @@ Definition chk (c : ccase) : bool :=
   | CIndex h n e names h' =>
       let r := index_vars index_vars_from_counter h n e in
       list_eqb String.eqb (fst r) names && (Nat.eqb (snd r) h' || negb index_vars_from_counter)
+  | CDecls keys decl init =>
+      (* emit_def_begin: the locals of a phase function are declared, then initialised, in the
+         sorted order of the keys of the phase's kind table (keys: the dict's own order) *)
+      list_eqb String.eqb (ssort keys) decl && list_eqb String.eqb (ssort keys) init
   end.
 """
 
@@ -1020,18 +1304,27 @@ def shrink_failure(prog, lane_a, lane_b, out, scratch, rounds=8):
         cands = _drop_candidates(prog)
         if not cands:
             break
-        if not pa and not pb:
+        same_history = all(ca.get(k, 0) == cb.get(k, 0) for k in HISTORY_KEYS)
+        if not pa and not pb and same_history:
             # no predecessors involved: one interpreter per side tries all candidates in a row
             # (both sides see the same history, so a difference is due to the seed / configuration)
             res, _ = run_lanes([(sa, [[q, ca] for q in cands]), (sb, [[q, cb] for q in cands])], scratch)
             ok = [x[out] != y[out] and "LANE-FAILED" not in (x[out], y[out])
                   and "WORKER-EXC" not in (x[out], y[out]) for x, y in zip(res[0], res[1])]
         else:
-            # every candidate needs two fresh interpreters: keep this search short
-            if _ >= 4:
+            # every candidate needs two fresh interpreters (what an earlier candidate leaves
+            # behind in the process would mask the failure): keep this search short
+            if _ >= (4 if pa or pb else rounds):
                 break
-            cands = sorted(cands, key=prog_size)[:5]
-            ok = differs([mk(q, pa, pb) for q in cands], out, scratch)
+            cands = sorted(cands, key=prog_size)
+            lim = 5 if pa or pb else common.NPROC // 2
+            chunks = [cands[i:i + lim] for i in range(0, len(cands), lim)][:1 if pa or pb else 3]
+            cands, ok = [], []
+            for chunk in chunks:
+                okc = differs([mk(q, pa, pb) for q in chunk], out, scratch)
+                if any(okc):
+                    cands, ok = chunk, okc
+                    break
         nxt = [q for q, o in zip(cands, ok) if o]
         if not nxt:
             break
@@ -1055,6 +1348,12 @@ KNOWN_CLASSES = {
     "fortran_index_var_counter": ("f", lambda kind, d: kind == "history" and all(
         "drtf_i" in l for l in _changed(d))),
 }
+
+
+def _is_declaration(line):
+    """a Fortran declaration line (`integer x`, `integer :: x`, `real (kind=8), allocatable, ... :: x`, ...)"""
+    l = line.strip().lower()
+    return l.startswith(("integer", "real", "complex", "logical", "character", "type(", "type ("))
 
 
 def _changed(diff):
@@ -1090,7 +1389,7 @@ def gen_programs(tier, seed):
         progs.append(random_program(rng, i))
     seen, out = set(), []
     for p in progs:
-        key = json.dumps(p["phases"], sort_keys=True)
+        key = json.dumps([p["phases"], p.get("fopts")], sort_keys=True)
         if key not in seen:
             seen.add(key)
             out.append(p)
@@ -1200,6 +1499,10 @@ def _main(rep, tier, seed, ps, programs, dist, scratch):
                 nontrivial.add((pi, "several_release_calls_after_one_statement"))
         if len(prog["phases"]) > 1:
             nontrivial.add((pi, "several_phases"))
+        if any(len(_loop_counters(ph["ops"])) >= 2 for ph in prog["phases"]):
+            nontrivial.add((pi, "several_loop_counters_in_one_phase"))
+        if any(t in json.dumps(prog["phases"]) for t in DECLARING_TEMPLATES):
+            nontrivial.add((pi, "call_of_a_template_that_declares_temporaries"))
         f_order = sorted(ph["name"] for ph in prog["phases"])
         for pp in (0, 1, 2):
             try:
@@ -1258,8 +1561,9 @@ def _main(rep, tier, seed, ps, programs, dist, scratch):
         evaluations=n_obs + len(terms),
         distinct_nontrivial=len({pi for pi, _ in nontrivial}),
         rule="a program is non-trivial when it has a statement with >= 2 variables both read and written "
-             "(S1), a statement after which >= 2 release calls are emitted (S3), or >= 2 phases (S4); "
-             "distinct by program text",
+             "(S1), a statement after which >= 2 release calls are emitted (S3), >= 2 phases (S4), a phase "
+             "with >= 2 distinct loop counters, or a call of a Fortran template that declares temporaries "
+             "(matmul, transpose, linear_solve, svd, <func>s); distinct by program text",
         nontrivial_by_reason={r: sum(1 for _, x in nontrivial if x == r) for r in sorted({x for _, x in nontrivial})},
         oracle_observations=n_obs, hash_seeds=SEEDS, configurations=CONFIGS, lanes=len(lanes),
         programs=len(programs), programs_whose_generation_raises=gen_failed,
